@@ -11,6 +11,9 @@ CHECKS={
  "C05":("model_checking",E1,"bounded-exhaustive exploration of reconfiguration histories against a reference stack machine",
         "All words up to depth 4 (quick) / 5 (thorough) over the five LoggerHandle reconfiguration operations with 5 well-formed specifications (two differing only in the text filter) and 3 malformed texts run on a real Logger; after every operation result kind, enabled-grid, delivered records and log::max_level() are compared with a (active, stack) reference model, and the stack is drained at the end.",
         "One handle; probe grid 5 levels x 6 targets x 2 messages.","4 C05"),
+ "C11":("fault_enumeration",E1,"exhaustive crash-point enumeration (directory snapshot at every file-system point) with restart from every crash state; crash model validated by real process aborts",
+        "A history runs once on the real logger in direct mode; at every guarded file-system point (before each write, rename, open, symlink removal/creation, listing, removal, gz create/open/copy/finish/remove-original) the directory is copied, which is exactly what a SIGKILL there leaves. Every copy (each (site, occurrence) of every history, for naming x cleanup (tight and generous limits) x symlink x append x 0/1 earlier runs) must contain every acknowledged record, and a new logger (append on and off) must start without error or error-channel output, and after two more rotations the intact files in age order must hold the acknowledged stream (minus a limit-removable prefix, plus optionally the record in flight) followed by the new records, within the count limits. For one history per naming scheme every crash point is also produced by a child process calling abort() at that point and compared byte for byte with the in-process copy.",
+        "Kill = process kill (kernel state survives), single write(2) atomic w.r.t. the kill; cleanup in the logging thread; quick: fixed word plus all words <= 3 over {W20,W5,R}, thorough <= 6.","4 C11"),
  "C12":("model_checking",E2,"exhaustive interleaving exploration (controlled scheduler over real threads), no preemption bound",
         "2 (all pairs) and 3 (quick: selected, thorough: all triples) threads with LoggerHandle clones each issue one of set_new_spec / parse_new_spec / push_temp_spec / push+pop / set_new_spec(D); every interleaving of their scheduling points (spec lock acquisition, log::set_max_level, thread start/end) is executed on the real code via token passing through the guarded hooks; afterwards the enabled-grid must equal one submitted specification as a whole and log::max_level() must admit everything it enables. Each reported schedule is replayed twice for determinism.",
         "Sequential consistency at hook granularity; the spec RwLock sections and log::set_max_level are the only shared accesses of these operations; logging threads are not mixed in.","4 C12"),
